@@ -37,6 +37,9 @@ type c02Plan struct {
 	// its way, 3 after a drawn number of steps; plainT: on a transport without deadlines (nothing interrupts its I/O)
 	cancelMode, cancelSteps int
 	plainT                  bool
+	// protHdr: the header the server sends inside TLS: 0 complete, 1 without id, 2 without version, 3 without either, 4
+	// without xml:lang and from (what it had sent in clear must not fill the gaps)
+	protHdr int
 }
 
 var c02Lists = []string{"starttls-required", "starttls-optional", "starttls-absent-sasl-offered", "empty", "starttls-among-others", "unknown-only", "bind-and-sasl-only", "starttls-and-secure-only-voluntary"}
@@ -267,7 +270,21 @@ func c02Session(rc *RC, idx int, tag string, origin jid.JID, neg *c02Neg, plan c
 			}
 			switch {
 			case st.Name.Local == "stream":
-				if stage == 0 {
+				if stage == 0 && plan.protHdr != 0 {
+					idA, verA, rest := ` id='tls-id'`, ` version='1.0'`, fmt.Sprintf(` from='%s'`, location)
+					switch plan.protHdr {
+					case 1:
+						idA = ""
+					case 2:
+						verA = ""
+					case 3:
+						idA, verA = "", ""
+					case 4:
+						rest = ""
+					}
+					rc.Fire("protected-header-incomplete")
+					fmt.Fprintf(w, `<?xml version='1.0'?><stream:stream xmlns='jabber:client' xmlns:stream='http://etherx.jabber.org/streams'%s%s%s><stream:features>%s</stream:features>`, verA, idA, rest, mech)
+				} else if stage == 0 {
 					hdr(w, "tls-id", `<stream:features>`+mech+`</stream:features>`)
 				} else {
 					hdr(w, "tls-id2", `<stream:features>`+bindF+`</stream:features>`)
@@ -444,6 +461,9 @@ func runC02(rc *RC) {
 		}
 		origin := jid.MustParse("me@" + dom + "/r")
 		plan := c02Plan{list: ch.Int("script", len(c02Lists)), answer: ch.Int("script", len(c02Answers)), foreignTo: ch.Chance("script", 1, 5), gateway: useNil && ch.Chance("script", 1, 5)}
+		if ch.Chance("script", 1, 4) {
+			plan.protHdr = 1 + ch.Int("script", 4)
+		}
 		if ch.Chance("faults", 1, 5) {
 			plan.cancelMode = 1 + ch.Int("faults", 3)
 			plan.cancelSteps = ch.Range("faults", 1, 200)
@@ -507,6 +527,16 @@ func runC02(rc *RC) {
 				}
 				if o.err == nil && !strings.HasPrefix(o.inID, "tls-id") {
 					rc.Failf("C02.c3", "protected-stream-id-wrong:"+teeS, "established session reports stream id %q, the server sent tls-id inside TLS", o.inID)
+				}
+			}
+			// c3: nothing of the clear-text stream (its header's id, version, …) is part of the protected stream
+			if o.done && o.handshake {
+				rc.Evals["C02.c3"]++
+				if o.err == nil && strings.HasPrefix(o.inID, "clear") {
+					rc.Failf("C02.c3", "clear-text-id-in-protected-stream:"+teeS, "the established session reports stream id %q, which the server only ever sent in clear text (its header inside TLS: variant %d)", o.inID, plan.protHdr)
+				}
+				if o.err == nil && (plan.protHdr == 2 || plan.protHdr == 3) {
+					rc.Failf("C02.c3", "clear-text-version-in-protected-stream:"+teeS, "the server's header inside TLS has no version attribute (variant %d) and the session was established all the same: the version it had sent in clear text was taken for the protected stream's", plan.protHdr)
 				}
 			}
 			// c4: default config names this session's own domain
